@@ -34,7 +34,8 @@ ASSUMPTIONS = ["type universe: typing.Any, typing.Never, None, bool, int, float,
 PATHS = (["live:isinstance(v,<ty>)", "live:isinstance(v,T)", "live:param", "live:return", "live:assign-in-def",
           "live:assign-module", "live:host-api"],
          ["frozen:A.isinstance", "frozen:A.param", "frozen:A.return", "frozen:A.assign-in-def", "frozen:B.isinstance(v,T)",
-          "frozen:B.param", "frozen:B.return", "frozen:B.assign-in-def", "frozen:B.assign-module", "frozen:host-api"],
+          "frozen:B.param", "frozen:B.return", "frozen:B.assign-in-def", "frozen:B.assign-module",
+          "frozen:A.param-called-with-constant-from-B-module", "frozen:A.param-called-with-constant-from-B-def", "frozen:host-api"],
          ["mixed:A.isinstance", "mixed:A.param", "mixed:A.return", "mixed:A.assign-in-def", "mixed:B.isinstance(v,T)",
           "mixed:B.param", "mixed:B.return", "mixed:B.assign-in-def", "mixed:host-api"])
 NPATHS = sum(len(p) for p in PATHS)
@@ -712,11 +713,11 @@ META = {
                   "preserves the meaning exactly when no union brings together two different list types or two different dict types "
                   "(C16_normalize_denote_partial). The full statement `denote_raw t v = denote (normalize t) v` is REFUTED by the faithful model "
                   "(C16_normalize_denote_refuted: list[int] | list[str] accepts [1, \"a\"]) and the implementation shows the same behaviour on every "
-                  "path (reported as union-merge:list / union-merge:dict). The model is tied to /repo on every run through 26 check paths per pair.",
+                  "path (reported as union-merge:list / union-merge:dict). The model is tied to /repo on every run through 28 check paths per pair.",
     "level_note": "Trusted: Coq kernel; extraction (ExtrOcamlBasic only) + ocaml/ty_driver.ml; harness bin types; the two printers of "
                   "tools/props/C16.py. Modelled rather than verified: scalars are abstracted to their kind; the order of union alternatives; "
                   "`type`, struct types, Callable signatures and host-defined types are outside the universe. The tie is differential testing "
                   "(exhaustive at depth <= 2, sampled above), so a change that only affects an unsampled deep shape can escape.",
-    "technique": "Coq proof of compile(normalize t) against denote; extracted model + extracted spec vs 26 run-time check paths of the real library",
+    "technique": "Coq proof of compile(normalize t) against denote; extracted model + extracted spec vs 28 run-time check paths of the real library",
     "design_ref": "DESIGN.md section 4 C16",
 }
